@@ -103,6 +103,22 @@ def coq_op(op, names):
     raise ValueError(op)
 
 
+HMOD = 2305843009213693951
+
+
+def hstep(h, x):
+    return (h * 1000003 + x + 1) % HMOD
+
+
+def hash_obs(r, o):
+    h = hstep(hstep(7, r), len(o))
+    for l in o:
+        h = hstep(h, len(l))
+        for x in l:
+            h = hstep(h, x)
+    return h
+
+
 def nl(l):
     return "[" + ";".join(str(x) for x in l) + "]"
 
@@ -201,11 +217,11 @@ def tree_tie(ctx, stats):
     items = []
     for c, o in zip(cases, outs):
         ops = ";".join(coq_op(op, c["names"]) for op in c["ops"])
-        exp = ";".join("(%d,%s)" % (st["r"], nll(st["o"])) for st in o["steps"])
+        exp = ";".join("%d%%N" % hash_obs(st["r"], st["o"]) for st in o["steps"])
         items.append("(%d,[%s],[%s])" % (c["k"], ops, exp))
     body = """From stdpp Require Import gmap list.
 From GV Require Import C09.Model.
-Definition cases : list (nat * list op * list (nat * list (list nat))) := [
+Definition cases : list (nat * list op * list N) := [
 %s
 ].
 Definition diffs := imap (fun i c => (i, case_diff c)) cases.
